@@ -137,7 +137,7 @@ type c10Stack struct {
 	ctrl    *DnsController
 	shadow  *c10Shadow
 	table   map[string]bpfDomainRouting // lower-case name without dot → bitmap
-	fqdnOf  map[string]string          // cache key → lower-case name without dot
+	fqdnOf  map[string]string           // cache key → lower-case name without dot
 	scopes  []c10Scope
 	hist    []string
 	classes map[string]bool
